@@ -23,7 +23,7 @@ var netsimAssume = []string{
 func init() {
 	kit.Register(&kit.PropertySpec{
 		ID: "C01", Engine: "netsim",
-		Profiles:  []kit.ProfileSpec{{Name: "faultfree", Weight: 1}, {Name: "net", Weight: 2}, {Name: "crash", Weight: 3}, {Name: "byz", Weight: 3}},
+		Profiles:  []kit.ProfileSpec{{Name: "faultfree", Weight: 1}, {Name: "net", Weight: 2}, {Name: "crash", Weight: 3}, {Name: "byz", Weight: 3}, {Name: "lag", Weight: 2}},
 		QuickRuns: 320, QuickBudgetS: 60, ThoroughRuns: 20000, ThoroughBudgetS: 900,
 		Rule: "one run = one tape: cluster size, timeouts, latencies, fault rates, crash points, workload and every delivery/lock-grant order are drawn from it; " +
 			"non-trivial = every correct node finalized at least one height; distinct = distinct event-log hash (every send, delivery, drop, crash image, restart, lock-relevant delivery order and finalization).",
